@@ -22,12 +22,13 @@ Record fcase := {
   f_w : vec;                        (* weights in force: reported row, or the configured weights *)
   f_f0 : list oQ;                   (* unperturbed values, one per realization *)
   f_fp : list (list oQ);            (* perturbed values, realization x perturbation *)
-  f_grad : vec;                     (* reported gradient (all variables) *)
+  f_grad : vec;                     (* reported gradient (all variables), NaN entries printed as 0 *)
+  f_nan : bool;                     (* the reported gradient contains NaN *)
   f_sigma : Q;                      (* stddev rows: the standard deviation (certified below) *)
   f_slopes : option (list vec)      (* affine cases: exact slopes per realization, all variables *)
 }.
 
-Inductive outcome := OGrad | ONone | OAbort.
+Inductive outcome := OGrad | ONone | OAbort | OError.
 
 Record ens_case := {
   c_S : Q;                          (* tolerance scale *)
@@ -44,7 +45,8 @@ Record ens_case := {
   c_funcs : list fcase;             (* objectives, then constraints *)
   c_nobj : nat;
   c_ow : vec;                       (* objective weights *)
-  c_wgrad : vec;                    (* reported weighted-objective gradient *)
+  c_wgrad : vec;                    (* reported weighted-objective gradient, NaN entries printed as 0 *)
+  c_wnan : bool;                    (* it contains NaN *)
   c_outcome : outcome;
   c_abort_checkable : bool          (* no realization filter configured: aborts come from the estimator only *)
 }.
@@ -88,6 +90,7 @@ Definition check_function (c : ens_case) (f : fcase) : bool :=
   match normalize (zero_failed (c_failed c) (f_w f)) with
   | None => true                               (* no surviving weight: outside the property *)
   | Some wh =>
+      if f_nan f then false else                 (* NaN although a successful realization carries weight *)
       if negb (comparable n (c_merge c) wh (c_s2 c) (c_s2m c)) then true else
       let rsf := map (restrict_rdata mask) rs in
       let xf := restrict_free mask (c_x c) in
@@ -139,6 +142,9 @@ Definition check_ens (c : ens_case) : bool :=
           negb (c_abort_checkable c) ||
           (gate (c_rmin c) failed_fn && existsb (too_few failed_fn) (c_funcs c)) ||
           (gate (c_rmin c) failed && existsb (too_few failed) (c_funcs c))
+      | OError =>            (* an exception is only acceptable when no successful realization carries weight *)
+          negb (c_abort_checkable c) ||
+          existsb (fun f => is_none (normalize (zero_failed failed (f_w f)))) (c_funcs c)
       | ONone =>
           list_eqb Bool.eqb failed (c_failed c) && negb (gate (c_rmin c) failed)
       | OGrad =>
@@ -147,9 +153,11 @@ Definition check_ens (c : ens_case) : bool :=
           forallb (check_function c) (c_funcs c) &&
           (* weighted-objective gradient = objective-weighted sum of the reported objective gradients *)
           masked_zero (c_mask c) (c_wgrad c) &&
-          vclose (c_S c) (c_wgrad c)
-                 (weighted_objective_gradient (length (c_mask c)) (c_ow c)
-                    (map f_grad (firstn (c_nobj c) (c_funcs c))))
+          (if c_wnan c then existsb f_nan (firstn (c_nobj c) (c_funcs c))
+           else existsb f_nan (firstn (c_nobj c) (c_funcs c)) ||
+                vclose (c_S c) (c_wgrad c)
+                       (weighted_objective_gradient (length (c_mask c)) (c_ow c)
+                          (map f_grad (firstn (c_nobj c) (c_funcs c)))))
       end
   end.
 
